@@ -108,7 +108,7 @@ RefinesRefMap ==
 (***************************************************************************)
 CntOf(P) == [mB |-> P.mB, mI |-> Cardinality(P.M), mG |-> P.mG, oP |-> P.oP, oB |-> P.oB,
              oI |-> Cardinality(P.O), cI |-> P.cN, err |-> P.err]
-GC == INSTANCE GriddleCount WITH FixD1 <- TRUE, FixD4 <- TRUE, FixD6 <- TRUE, Debug <- FALSE,
+GC == INSTANCE GriddleCount WITH FixD1 <- TRUE, FixD4 <- TRUE, FixD6 <- TRUE, FixD8 <- TRUE, Debug <- FALSE,
           mB <- mB, mI <- Cardinality(M), mG <- mG, oP <- oP, oB <- oB, oI <- Cardinality(O), cI <- cN, err <- err
 RefinesCount ==
     (Ok /\ Cursor) =>
